@@ -163,7 +163,19 @@ pub fn apply(edit: Edit, orig: &Block, donor: Option<&Block>, rng: &mut Rng) -> 
 fn same_leaves_different_bytes(a: &Block, b: &Block) -> bool {
     let la: Vec<_> = a.transactions.iter().map(|t| t.hash_for_signature).collect();
     let lb: Vec<_> = b.transactions.iter().map(|t| t.hash_for_signature).collect();
-    la == lb && tx_list_id(a) != tx_list_id(b)
+    if la != lb || tx_list_id(a) == tx_list_id(b) || a.transactions.len() != b.transactions.len() {
+        return false;
+    }
+    // ... and the bytes differ in nothing but the coordinates (block id, ordinal) of inputs
+    let norm = |t: &saito_core::core::consensus::transaction::Transaction| {
+        let mut t = t.clone();
+        for s in t.from.iter_mut() {
+            s.block_id = 0;
+            s.tx_ordinal = 0;
+        }
+        t.serialize_for_net()
+    };
+    a.transactions.iter().zip(b.transactions.iter()).all(|(x, y)| norm(x) == norm(y))
 }
 
 /// rewrite one input to a twin output (same owner, amount, slip index, type; other block id /
@@ -302,7 +314,13 @@ pub async fn run(ctx: &Ctx, rep: &mut Report) {
     for round in 0..rounds {
         let gp = if round % 2 == 0 { 20 } else { 5 };
         let mut cfg = HistoryCfg::basic(Params::with_gp(gp));
-        cfg.fee = (100, 30_000);
+        // every third history is fee-less throughout: there the fee totals of a block do not
+        // depend on which of its transactions are present in full
+        let fee_less = round % 3 == 2;
+        cfg.fee = if fee_less { (0, 0) } else { (100, 30_000) };
+        if fee_less {
+            rep.count("histories_without_fees");
+        }
         cfg.txs = (2, 5);
         // twin outputs: same owner and amount in different issuance transactions
         for v in cfg.issuance.iter_mut() {
@@ -322,7 +340,7 @@ pub async fn run(ctx: &Ctx, rep: &mut Report) {
                 let used: Vec<[u8; 59]> = txs.iter().flat_map(|t| t.from.iter().map(|s| ref_key(&s.public_key, s.block_id, s.tx_ordinal, s.slip_index, s.amount, s.slip_type as u8))).collect();
                 let a = h.b.actors[1 + rng.below(4) as usize].clone();
                 if let Some(o) = ledger.safe_owned_by(&a.pk, gp).into_iter().find(|o| o.amount == 777_777 && !used.contains(&o.key())) {
-                    txs.push(build_tx(&a, &[o.clone()], &[(h.b.actors[0].pk, 700_000), (a.pk, 70_000)], h.b.store.get(&parent).ts + 9, &[]));
+                    txs.push(build_tx(&a, &[o.clone()], &[(h.b.actors[0].pk, 700_000), (a.pk, if fee_less { 77_777 } else { 70_000 })], h.b.store.get(&parent).ts + 9, &[]));
                     rep.count("twin_spend_included");
                 }
             }
@@ -378,7 +396,17 @@ pub async fn run(ctx: &Ctx, rep: &mut Report) {
                 // a node holding the parent chain but not the original block
                 let mut node = h.b.fresh_replica(&parent, &h.b.actors[2].clone()).await;
                 let before = node.tip().await;
+                let dbg = e == Edit::SpvPlaceholder && fee_less && std::env::var("SVH_DEBUG").is_ok();
+                if dbg {
+                    crate::logsink::install_stderr(log::LevelFilter::Debug);
+                    log::set_max_level(log::LevelFilter::Debug);
+                    eprintln!("=== SpvPlaceholder in a fee-less block {} (same hash: {})", step.id, same_hash);
+                }
                 let r = crate::panics::catch_async(node.add_bytes(&bytes)).await;
+                if dbg {
+                    eprintln!("=== result {:?}", r.as_ref().map(|x| x.as_ref().map(|y| y.short())).map_err(|p| p.message.clone()));
+                    log::set_max_level(log::LevelFilter::Off);
+                }
                 let res = match r {
                     Ok(x) => x,
                     Err(p) => {
